@@ -38,7 +38,7 @@ CLAUSES = {
 }
 PARALLEL = True
 CASE_TIMEOUT = 180   # wall-clock watchdog per case; generous because the machine may be heavily loaded
-LEVEL_NOTE = "model follows the code after fix commits 1470d98 (friendly_number sign) and b9430ab (future clamp)"
+LEVEL_NOTE = "model follows the code after fix commits 1dee4ae (friendly_number sign) and 0be0928 (future clamp)"
 
 EPOCH = datetime.datetime(1970, 1, 1, tzinfo=datetime.timezone.utc)
 CODES = ["en_US", "en", "fr_FR", "zh_CN", "fa_IR", "de", ""]
